@@ -216,15 +216,17 @@ fn add_reference_items(
     }
     if with_tokens {
         for token in file.token_decls(cst) {
-            items.push(CompletionItem {
-                label: token.name(cst).unwrap().0.to_string(),
-                label_details: Some(CompletionItemLabelDetails {
-                    description: Some("Token".to_string()),
+            if let Some(name) = token.name(cst) {
+                items.push(CompletionItem {
+                    label: name.0.to_string(),
+                    label_details: Some(CompletionItemLabelDetails {
+                        description: Some("Token".to_string()),
+                        ..Default::default()
+                    }),
+                    kind: Some(CompletionItemKind::REFERENCE),
                     ..Default::default()
-                }),
-                kind: Some(CompletionItemKind::REFERENCE),
-                ..Default::default()
-            });
+                });
+            }
             if let Some(symbol) = token.symbol(cst) {
                 items.push(CompletionItem {
                     label: symbol.0.to_string(),
